@@ -398,6 +398,10 @@ class Evaluator:
             if isinstance(s.value, ast.Constant):
                 return st
             self.ev(s.value, st)
+            if st.attrs.get("__dead__") is T.TRUE or st.attrs.get("__dead__") == T.TRUE:
+                # the statement was a call of a repository function that never returns (a helper that only raises): the path ends here
+                st.attrs = {k: v for k, v in st.attrs.items() if k != "__dead__"}
+                return None
             return st
         if isinstance(s, ast.Assign):
             v = self.ev(s.value, st)
@@ -1288,6 +1292,10 @@ class Evaluator:
     def ev_List(self, e, st):
         if len(e.elts) == 1 and isinstance(e.elts[0], ast.Starred):
             return self._lib_call("list", [self.ev(e.elts[0].value, st)], {}, st, e)   # [*x] is list(x)
+        if len(e.elts) == 2 and all(isinstance(x, ast.Starred) for x in e.elts):
+            a_, b_ = (self.ev(x.value, st) for x in e.elts)
+            if _is_seq(a_) and _is_seq(b_):
+                return atom(("concat", a_, b_))   # [*a, *b] is a + b for two lists
         return atom(("list", tuple(self.ev(x, st) for x in e.elts)))
 
     def ev_Set(self, e, st):
